@@ -95,7 +95,7 @@ const PARSERS: &[&str] = &[
     "blte", "encoding", "aidx", "aidxc", "agroup", "root", "install", "download", "size", "tvfs", "tvfsblte",
     "parchive", "pindex", "zbsdiff", "zbsparse", "cfgbuild", "cfgcdn", "cfgpatch", "cfgproduct", "cfgkeyring",
     "bpsv", "espec", "mime", "mimesniff", "idx", "updsec", "residency", "respage", "lru", "shmem", "buildinfo",
-    "localhdr", "mimebpsv", "encchunk", "lruload", "lruuse", "enchdr",
+    "localhdr", "mimebpsv", "encchunk", "lruload", "lruuse", "enchdr", "mimev1",
 ];
 
 // ---------------------------------------------------------------------------------------------
@@ -189,6 +189,8 @@ fn run_parser(name: &str, d: &[u8], tmp: &std::path::Path) -> bool {
         "mime" => cascette_protocol::mime_parser::parse_v1_mime_response(d).is_ok(),
         "mimesniff" => cascette_protocol::mime_parser::is_v1_mime_response(d),
         "mimebpsv" => cascette_protocol::mime_parser::parse_v1_mime_to_bpsv(d).is_ok(),
+        // the second entry point (with signature handling; the CMS decoding behind it is a body)
+        "mimev1" => cascette_protocol::v1_mime::parse_v1_mime_response(d, None).is_ok(),
         // one encrypted chunk payload (without the 'E' mode byte), decoded directly
         "encchunk" => cascette_formats::blte::decrypt_chunk_with_keys(d, &key_store(), 0).is_ok(),
         "idx" => with_file(tmp, "0000000001.idx", d, |p| {
@@ -1257,11 +1259,11 @@ fn hand_seeds(c: &mut Ctx) -> Vec<(String, String)> {
     add(c, &["cfgcdn"], "cdn_min", b"# CDN Configuration\n\narchives = 0017a402f556fbece46c38dc431a2c9b 00b79cc0eebdd26437c7e92e57ac7f5c\narchives-index-size = 173068 53588\narchive-group = 00872b40344ef1a3dac4aff09588603c\nfile-index = 00872b40344ef1a3dac4aff09588603c\nfile-index-size = 41228\n".to_vec());
     add(c, &["cfgpatch"], "patchcfg_min", b"# Patch Configuration\n\npatch = 00112233445566778899aabbccddeeff\npatch-size = 1234\npatch-entry = encoding 00112233445566778899aabbccddeeff 10 00112233445566778899aabbccddeeff 20 b:{*=z} 00112233445566778899aabbccddeeff 5 00112233445566778899aabbccddeeff 7\n".to_vec());
     let mime = b"MIME-Version: 1.0\r\nContent-Type: multipart/alternative; boundary=\"abc\"\r\n\r\n--abc\r\nContent-Type: text/plain\r\nContent-Disposition: version\r\n\r\nRegion!STRING:0|BuildId!DEC:4\n## seqn = 1\nus|5\n\r\n--abc--\r\nChecksum: 0123456789abcdef0123456789abcdef0123456789abcdef0123456789abcdef\r\n".to_vec();
-    add(c, &["mime", "mimebpsv", "mimesniff"], "mime_min", mime);
+    add(c, &["mime", "mimebpsv", "mimesniff", "mimev1"], "mime_min", mime);
     // complete replies whose epilogue carries the RIGHT checksum (the MIME body behind it is reached):
     // multipart and plain, CRLF / LF / no terminator
-    add(c, &["mime", "mimebpsv", "mimesniff"], "mime_ok_multi", mime_with_checksum(MIME_MULTIPART, b"\r\n"));
-    add(c, &["mime", "mimebpsv", "mimesniff"], "mime_ok_plain", mime_with_checksum(MIME_PLAIN, b"\n"));
+    add(c, &["mime", "mimebpsv", "mimesniff", "mimev1"], "mime_ok_multi", mime_with_checksum(MIME_MULTIPART, b"\r\n"));
+    add(c, &["mime", "mimebpsv", "mimesniff", "mimev1"], "mime_ok_plain", mime_with_checksum(MIME_PLAIN, b"\n"));
     add(c, &["mime", "mimebpsv"], "mime_ok_noterm", mime_with_checksum(MIME_PLAIN, b""));
     // a multi-byte character straddling byte 512 (the repaired [..512] site)
     let mut m2 = vec![b'a'; 511];
@@ -1788,34 +1790,56 @@ fn library_nesting_cases(c: &mut Ctx, thorough: bool) {
             c.case("cfgproduct", "empty", &[Edit::Rep(n, pre.to_vec())], "json-nest");
         }
     }
+    // multipart inside multipart (the same boundary text on every level is legal and is the worst
+    // case for a boundary scanner; distinct boundaries per level as well) and chains of
+    // message/rfc822 parts (kept by mail_parser as NESTED values: 16 levels are accepted since fix
+    // d1b4b99), through all V1 entry points
+    let leaf: &[u8] = b"Content-Type: text/plain\r\nContent-Disposition: version\r\n\r\nRegion!STRING:0|BuildId!DEC:4\nus|5\n\r\n";
+    let parsers = ["mime", "mimebpsv", "mimesniff", "mimev1"];
     let mdepths: &[usize] = if thorough { &[1, 2, 16, 100, 1000, 20_000] } else { &[2, 16, 100, 1000, 5_000] };
     for &n in mdepths {
-        // multipart inside multipart (same boundary text per level is legal and is the worst case
-        // for a boundary scanner; distinct boundaries per level as well), and message/rfc822 chains
-        let mut same = Vec::new();
         let mut distinct = Vec::new();
-        let mut rfc = Vec::new();
         for i in 0..n {
-            same.extend_from_slice(b"Content-Type: multipart/mixed; boundary=\"b\"\r\n\r\n--b\r\n");
             distinct.extend_from_slice(format!("Content-Type: multipart/mixed; boundary=\"b{i}\"\r\n\r\n--b{i}\r\n").as_bytes());
-            rfc.extend_from_slice(b"Content-Type: message/rfc822\r\n\r\n");
         }
-        let leaf = b"Content-Type: text/plain\r\nContent-Disposition: version\r\n\r\nRegion!STRING:0|BuildId!DEC:4\nus|5\n\r\n";
-        same.extend_from_slice(leaf);
         distinct.extend_from_slice(leaf);
-        rfc.extend_from_slice(leaf);
         for i in (0..n).rev() {
-            same.extend_from_slice(b"--b--\r\n");
             distinct.extend_from_slice(format!("--b{i}--\r\n").as_bytes());
         }
-        for (tag, body) in [("same", same), ("distinct", distinct), ("rfc822", rfc)] {
-            for p in MIME_PARSERS {
-                c.case(p, "empty", &[Edit::App(body.clone())], "mime-nest");
-            }
-            c.s.tally(&format!("mime-nest:{tag}"));
+        let same = vec![
+            Edit::Rep(n, b"Content-Type: multipart/mixed; boundary=\"b\"\r\n\r\n--b\r\n".to_vec()),
+            Edit::App(leaf.to_vec()),
+            Edit::Rep(n, b"--b--\r\n".to_vec()),
+        ];
+        for p in parsers {
+            c.case(p, "empty", &[Edit::App(distinct.clone())], "mime-nest");
+            c.case(p, "empty", &same, "mime-nest");
         }
+        c.s.tally("mime-nest:multipart");
+    }
+    let rdepths: &[usize] = if thorough { &[1, 2, 15, 16, 17, 18, 100, 1000, 5_000, 20_000, 50_000, 500_000] } else { &[15, 16, 17, 18, 100, 1000, 5_000, 50_000] };
+    for &n in rdepths {
+        for hdr in [&b"Content-Type: message/rfc822\r\n\r\n"[..], &b"Content-Type: message/rfc822\r\nContent-Disposition: version\r\n\r\n"[..]] {
+            for p in parsers {
+                c.case(p, "empty", &[Edit::Rep(n, hdr.to_vec()), Edit::App(leaf.to_vec())], "mime-nest");
+                // the chain alone: the input ends at the deepest point
+                c.case(p, "empty", &[Edit::Rep(n, hdr.to_vec())], "mime-nest");
+            }
+        }
+        // a chain inside a multipart body
+        let mixed = vec![
+            Edit::App(b"Content-Type: multipart/mixed; boundary=\"b\"\r\n\r\n--b\r\n".to_vec()),
+            Edit::Rep(n, b"Content-Type: message/rfc822\r\n\r\n".to_vec()),
+            Edit::App(leaf.to_vec()),
+            Edit::App(b"--b--\r\n".to_vec()),
+        ];
+        for p in parsers {
+            c.case(p, "empty", &mixed, "mime-nest");
+        }
+        c.s.tally("mime-nest:rfc822");
     }
 }
+
 
 /// does the table (accepted by `deserialize`) have an entry with the all-zero key on its `next`
 /// chain from the LRU tail? (own bounded walk)
@@ -2071,7 +2095,7 @@ fn main() {
         let len = c.seeds[sid].len();
         let tmax = if thorough { 96 } else { 40 };
         let tail = if thorough { 160 } else { 96 };
-        let every = matches!(p.as_str(), "mime" | "mimebpsv" | "mimesniff" | "encchunk") || sid.starts_with("blte_enc_");
+        let every = matches!(p.as_str(), "mime" | "mimebpsv" | "mimesniff" | "mimev1" | "encchunk") || sid.starts_with("blte_enc_");
         if len <= 4096 {
             for n in 0..len {
                 if n < tmax || n + tail >= len || every {
